@@ -6,13 +6,13 @@ PROPS = {
     "C07": {
         "runs": {
             "quick": [{"harness": "offsetopen", "args": ["--ko", 6, "--omax", 3, "--mix", 1]},
-                      {"harness": "offsetopen", "args": ["--ko", 4, "--omax", 3, "--mix", 2]}],
+                      {"harness": "offsetopen", "args": ["--ko", 4, "--omax", 4, "--mix", 2]}],
             "thorough": [{"harness": "offsetopen", "args": ["--ko", 6, "--omax", 4, "--mix", 1]},
                          {"harness": "offsetopen", "args": ["--ko", 5, "--omax", 3, "--mix", 2]},
                          {"harness": "offsetopen", "args": ["--ko", 4, "--omax", 2, "--mix", 3]}],
         },
         "rule": "every ordered tuple of 1..n distinct open-board points passing the turning-angle filter as open polyline (self-crossing included), alone x {Joined, Butt, Square, Round} x delta {3.5, 10} x {Round x arc {0, 0.5}, Miter x limit {1.5, 3}, Square, Bevel, Round+ReverseSolution}; "
-                "and every ordered mixture of 2 (3) such polylines placed far apart, in one group and in one group per path, x 4 joins x 4 end types; each case also run with -delta; non-trivial = solution non-empty",
+                "and every ordered mixture of 2 (3) such polylines (pairs: up to 4 points each, so that longer-before-shorter orders occur) placed far apart, in one group and in one group per path, x 4 joins x 4 end types; each case also run with -delta; non-trivial = solution non-empty",
         "level_text": "Every case is executed on the real ClipperOffset; the result's winding number is compared at every point of the plane outside the tolerance band with the stroke described by inner and outer unions of rectangles and discs (segments, joins, caps; single points; 2-point joined paths capped as documented); result(+delta) must equal result(-delta) exactly.",
         "assumptions": ["polylines of at most 4 vertices, mixtures of at most 3", "outer bound factor per join: round 1, square/bevel sqrt2, miter max(limit, sqrt2)", "the tolerance band plus a rim of 2*r_leaf is not decided"],
     },
